@@ -1,0 +1,9 @@
+//go:build verif
+
+package value
+
+// Limits applied by NewValue, exposed to the verification harness.
+const (
+	VerifRawValueMaxSize  = rawValueMaxSize
+	VerifListValueMaxSize = listValueMaxSize
+)
